@@ -113,6 +113,7 @@ class Interp:
         self.symbolic_tables = None     # id(list) -> name: lookups with a bit-field index stay symbolic
         self.inverse_tables = {}        # name of table A -> name of table B with A[B[x]] = x
         self.oob = []                   # (index, size) of reads of constant tables with a concrete index outside the table
+        self.oob_may = []               # (table, index value, (lo, hi), size, where): index range of a constant-table read leaves the table
         self.const_override = None      # qualified global name -> value: analyse the code for another value of a constant
         self.callsites_seen = set()
 
@@ -219,6 +220,7 @@ class Interp:
                     return ov
             g = self.prog.globals.get(obj[2:])
             if g is not None and g.get('const') and 'value' in g:
+                self._tl_ctx = (obj[2:], node)
                 return self._table_load(g['value'], path, st)
         if isinstance(obj, tuple) and obj[0] == 'str':
             return self._str_load(obj[1], path, st)
@@ -289,6 +291,8 @@ class Interp:
                 r = rng(i, st.sym)
                 lo, hi = (0, len(v) - 1) if r is None else (max(0, r[0]), min(len(v) - 1, r[1]))
                 if r is not None and (r[0] < 0 or r[1] >= len(v)):
+                    name, nd = getattr(self, '_tl_ctx', (None, None))
+                    self.oob_may.append((name, i, r, len(v), nloc(nd) if nd else None))
                     return TOP
                 out = None
                 for j in range(lo, hi + 1):
